@@ -21,7 +21,7 @@ from harness import tlc as T
 PROPERTY = "X03"
 LEVEL = "model_checking"
 
-CHUNK = 400
+CHUNK = 300
 
 
 # ---- running one session on the real code ----------------------------------------------------
@@ -193,7 +193,9 @@ def run_session(sess):
 
 def validate(ctx, traces):
     from concurrent.futures import ThreadPoolExecutor
-    parts = [traces[k:k + CHUNK] for k in range(0, len(traces), CHUNK)]
+    n = max(1, min(4, -(-len(traces) // 120))) if len(traces) <= 4 * CHUNK else -(-len(traces) // CHUNK)
+    size = -(-len(traces) // n)
+    parts = [traces[k:k + size] for k in range(0, len(traces), size)]
     wds = [ctx.workdir() for _ in parts]
     obs = {}
     results = []
@@ -234,7 +236,7 @@ SLOTS = {"plain": {}, "d1": {"delay": 1}, "d2": {"delay": 2}, "eoe": {"mail": ["
          "mideoe": {"mid": ["eoe"], "frag2": True}, "emcy": {"mail": ["emcy"]},
          "err": {"err": 0x06020000}, "abort": {"abort": True}, "mbxerr": {"mbxerr": True}}
 REFUSALS = ("err", "abort", "mbxerr")
-SHAPES_Q = ("v0", "none", "rec1", "gap3", "arr2")
+SHAPES_Q = ("v0", "none", "rec1", "gap3")
 SHAPES_T = ("v0", "none", "rec1", "gap3", "arr2", "str", "wide")
 FIXED = {"list": 2, "od": 6, "oe": 10}
 
@@ -244,12 +246,14 @@ def tset(xs):
 
 
 def scripts_cfg(wd, name, spec, inv, **kw):
-    c = dict(MaxObjs=0, Shapes=("v0",), BigNs=(), Triples=(), MaxLen=0, Kinds=("plain",), Refusals=REFUSALS)
+    c = dict(MaxObjs=0, Shapes=("v0",), BigNs=(), Triples=(), MaxLen=0, Kinds=("plain",), Refusals=REFUSALS,
+             Wanted="= {}")
     c.update(kw)
     return T.write_cfg(wd, name, f"""SPECIFICATION {spec}
 CONSTANTS MaxObjs = {c['MaxObjs']}
           Shapes = {tset(c['Shapes'])}
           BigNs = {tset(c['BigNs'])}
+          Wanted {c['Wanted']}
           Triples = {tset(c['Triples'])}
           MaxLen = {c['MaxLen']}
           Kinds = {tset(c['Kinds'])}
@@ -271,55 +275,40 @@ def split_triples(quick):
     return out
 
 
-def enum_dicts(ctx):
+WANTED = [("n%d" % k,) for k in range(6)] + [("none",) * k for k in range(5)] + \
+    [("typed",), ("big",), ("v0", "big"), ("word",), ("v0", "word"), ("v0", "typed"), ("v0",), ("rec1", "v0"),
+     ("gap3",), ("arr2",), ("big", "v0"), ("arr2", "v0"), ("str", "wide"), ("wide", "arr2", "str")]
+
+
+def enumerate_all(ctx):
+    """one TLC run of OdInfoScripts.AllSpec ->
+    product dictionaries [[shapes, od]...]; the dictionaries of the dedicated sessions {shapes: od}
+    (one object of every name length, objects without entries = lists of every length, typed
+    entries, 255 subindices, a data type ECDataType does not list); the split table
+    {(fixed, total, cap): [sizes...]}; the reply scripts"""
     wd = ctx.workdir()
-    cfg = scripts_cfg(wd, "d.cfg", "DictSpec", "EmitDict", MaxObjs=3 if ctx.quick else 4,
-                      Shapes=SHAPES_Q if ctx.quick else SHAPES_T, BigNs=(7, 25, 60))
-    res = T.require_clean(T.run(wd, "OdInfoScripts", cfg, workers=1, timeout=600), "OdInfoScripts/dicts")
+    with open(f"{wd}/OdInfoWanted.tla", "w") as f:
+        f.write("---- MODULE OdInfoWanted ----\nEXTENDS OdInfoScripts\nWantedDef == " + tset(WANTED) + "\n====\n")
+    cfg = scripts_cfg(wd, "a.cfg", "AllSpec", "EmitAll", MaxObjs=3 if ctx.quick else 4,
+                      Shapes=SHAPES_Q if ctx.quick else SHAPES_T, BigNs=(7, 25, 60), Wanted="<- WantedDef",
+                      Triples=[f * 10000 + t * 100 + c for f, t, c in split_triples(ctx.quick)],
+                      MaxLen=2 if ctx.quick else 3, Kinds=tuple(SLOTS))
+    res = T.require_clean(T.run(wd, "OdInfoWanted", cfg, workers=1, timeout=1200), "OdInfoScripts")
     recs = T.printed_records(res, "DICT")
-    if not recs:
-        raise T.MachineryError("no dictionaries enumerated")
-    return res, sorted(([list(a), d] for a, d in recs), key=lambda r: (len(r[0]), repr(r[0])))
-
-
-def enum_special(ctx):
-    """the dictionaries of the dedicated sessions: one object of every name length, objects
-    without entries (lists of every length), typed entries, 255 subindices"""
-    wd = ctx.workdir()
-    out = {}
-    stats = []
-    for key, shapes, n in (("names", ("n0", "n1", "n2", "n3", "n4", "n5"), 1), ("none", ("none",), 4),
-                           ("misc", ("typed", "big", "word", "v0"), 2)):
-        cfg = scripts_cfg(wd, f"{key}.cfg", "DictSpec", "EmitDict", MaxObjs=n, Shapes=shapes)
-        res = T.require_clean(T.run(wd, "OdInfoScripts", cfg, workers=1, timeout=600), "OdInfoScripts/" + key)
-        stats.append(res)
-        for a, d in T.printed_records(res, "DICT"):
-            out[tuple(a)] = d
-    return stats, out
-
-
-def enum_splits(ctx):
-    wd = ctx.workdir()
-    cfg = scripts_cfg(wd, "p.cfg", "SplitSpec", "EmitSplit", Triples=[f * 10000 + t * 100 + c for f, t, c in split_triples(ctx.quick)])
-    res = T.require_clean(T.run(wd, "OdInfoScripts", cfg, workers=1, timeout=900), "OdInfoScripts/splits")
+    special = {tuple(a): d for par, a, d in recs if par == -1}
+    if len(special) != len(set(WANTED)):
+        raise T.MachineryError("dictionaries of the dedicated sessions are missing")
+    dicts = sorted(([list(a) + ([par] if par > 0 else []), d] for par, a, d in recs if par >= 0),
+                   key=lambda r: (len(r[0]), repr(r[0])))
     table = {}
-    for f, t, c, s in T.printed_records(res, "SPLIT"):
-        table.setdefault((f, t, c), []).append(list(s))
+    for f, t, c, sp in T.printed_records(res, "SPLIT"):
+        table.setdefault((f, t, c), []).append(list(sp))
     for v in table.values():
         v.sort()
-    if not table:
-        raise T.MachineryError("no splits enumerated")
-    return res, table
-
-
-def enum_slots(ctx):
-    wd = ctx.workdir()
-    cfg = scripts_cfg(wd, "s.cfg", "SlotSpec", "EmitSlots", MaxLen=2 if ctx.quick else 3, Kinds=tuple(SLOTS))
-    res = T.require_clean(T.run(wd, "OdInfoScripts", cfg, workers=1, timeout=600), "OdInfoScripts/slots")
-    recs = sorted(list(r[0]) for r in T.printed_records(res, "SLOTS"))
-    if not recs:
-        raise T.MachineryError("no reply scripts enumerated")
-    return res, recs
+    slots = sorted(list(r[0]) for r in T.printed_records(res, "SLOTS"))
+    if not dicts or not table or not slots:
+        raise T.MachineryError("enumeration incomplete")
+    return res, dicts, special, table, slots
 
 
 def model_check(ctx):
@@ -430,18 +419,23 @@ def build_sessions(ctx, dicts, special, table, slots):
     caps = sorted({c for _, _, c in table})
     # A: every enumerated dictionary, mailbox sizes and splits in rotation
     for n, (shapes, od) in enumerate(dicts):
-        if shapes[:1] == ["big"]:
+        if shapes[:1] == ["biglist"]:
             for mi in ((22, 32) if quick else (22, 29, 32, 64, 128)):
                 for plan in ({}, odd_plan(od, mi - 12)):
                     out.append(dict(kind="biglist", shapes=shapes, od=od, mbx=dict(out=MBX_OUT[n % 3], **{"in": mi}),
                                     plan=plan, calls=[ODLIST]))
             continue
-        for r in range(1 if quick else 2):
+        for r in range(1 if quick or len(shapes) > 3 else 2):
             cap = caps[(n + r) % len(caps)]
             out.append(dict(kind="dict", shapes=shapes, od=od, mbx=dict(out=MBX_OUT[(n + r) % 3], **{"in": cap + 12}),
                             plan=make_plan(od, cap, table, n + 5 * r), calls=[ODLIST]))
         if n % (4 if quick else 2) == 0:           # and with room to spare: nothing fragmented
             out.append(dict(kind="dict", shapes=shapes, od=od, mbx=dict(out=32, **{"in": 64}), plan={}, calls=[ODLIST]))
+    for n, shapes in enumerate((("arr2",), ("arr2", "v0"), ("str", "wide"), ("wide", "arr2", "str"), ("typed",))):
+        for r, cap in enumerate(caps):
+            out.append(dict(kind="dict", shapes=list(shapes), od=special[shapes],
+                            mbx=dict(out=MBX_OUT[(n + r) % 3], **{"in": cap + 12}),
+                            plan=make_plan(special[shapes], cap, table, n + 3 * r), calls=[ODLIST]))
     # B: every enumerated split once
     for (fixed, total, cap), splits in sorted(table.items()):
         for sp in splits:
@@ -458,9 +452,12 @@ def build_sessions(ctx, dicts, special, table, slots):
         for shapes in ((("v0",), ("rec1", "v0")) if quick else (("v0",), ("rec1", "v0"), ("gap3",))):
             od = special[shapes] if shapes in special else [d for s, d in dicts if tuple(s) == shapes][0]
             first = od[0]
-            out.append(dict(kind="script", shapes=list(shapes), od=od, mbx=dict(out=MBX_OUT[n % 3], **{"in": 24}),
-                            script=[SLOTS[k] for k in sl], slots=sl, plan={},
-                            calls=[ODLIST, dict(fn="entry", a=dict(index=first["index"], sub=first["maxsub"])), ODLIST]))
+            # quick scripts are short: shifted by one they also reach the entry request
+            for sl2 in ([sl, ["plain"] + sl] if quick and len(od) == 1 else [sl]):
+                out.append(dict(kind="script", shapes=list(shapes), od=od, mbx=dict(out=MBX_OUT[n % 3], **{"in": 24}),
+                                script=[SLOTS[k] for k in sl2], slots=sl2, plan={},
+                                calls=[ODLIST, dict(fn="entry", a=dict(index=first["index"], sub=first["maxsub"])),
+                                       ODLIST]))
     # D: read_object_entry for every subindex, present or not, and for an object that does not exist
     for shapes in (("v0", "typed"), ("gap3",), ("arr2",)) if quick else (("v0", "typed"), ("gap3",), ("arr2",), ("big", "v0")):
         od = special[shapes] if shapes in special else [d for s, d in dicts if tuple(s) == shapes][0]
@@ -563,24 +560,24 @@ OBSERVATIONS = {
 
 def run(ctx):
     from concurrent.futures import ThreadPoolExecutor
-    with ThreadPoolExecutor(max_workers=5) as ex:
+    import time
+    t0 = time.time()
+    phases = {}
+    with ThreadPoolExecutor(max_workers=2) as ex:
         f_mc = ex.submit(model_check, ctx)
-        f_d = ex.submit(enum_dicts, ctx)
-        f_sp = ex.submit(enum_special, ctx)
-        f_p = ex.submit(enum_splits, ctx)
-        f_s = ex.submit(enum_slots, ctx)
-        r_d, dicts = f_d.result()
-        rs_sp, special = f_sp.result()
-        r_p, table = f_p.result()
-        r_s, slots = f_s.result()
-        for r in [r_d, r_p, r_s] + rs_sp:
-            ctx.tlc_stats(r)
+        r_e, dicts, special, table, slots = enumerate_all(ctx)
+        ctx.tlc_stats(r_e)
+        phases["enumerate"] = round(time.time() - t0, 1)
         sessions = build_sessions(ctx, dicts, special, table, slots)
         traces = [run_session(s) for s in sessions]
+        phases["real_code"] = round(time.time() - t0, 1)
+        results, obs = validate(ctx, traces)
+        phases["validate"] = round(time.time() - t0, 1)
         r_mc, info = f_mc.result()
+        phases["model_check_done"] = round(time.time() - t0, 1)
+    ctx.extra["phases_s"] = phases
     ctx.tlc_stats(r_mc)
     ctx.extra["mc_odinfo"] = info
-    results, obs = validate(ctx, traces)
     tally = dict(accepted={}, rejected={}, observations={})
     for i, (s, tr, r) in enumerate(zip(sessions, traces, results)):
         good = judge(ctx, s, tr, r, obs.get(i, ()), tally)
